@@ -253,7 +253,7 @@ def _configure():
         legs=[EXPLORE, SQLCONF])
     cfg("C10", "proof", ["A4", "A6", "A10", "A11", "A13"], not_reached=[NR_SQL],
         explanation="acceptance predicate snap_should_accept written from the statement (literal 5; corner v = non-nil base left free); loop invariant of the bounded walk; declined => untouched; success either way",
-        legs=[EXPLORE, SQLCONF, INTERLEAVE, FAULTS, XCHECK])
+        legs=[EXPLORE, SQLCONF, INTERLEAVE, XCHECK])
     cfg("C11", "proof", ["A4", "A6", "A13"], not_reached=[NR_SQL, "schedules (AddSnapshot overlapping GetSnapshot) only via C03's reduction"],
         explanation="gs.pair / gs.none (id and bytes of the stored snapshot, both written by one set_snapshot call: snap.applied), chain_wf's snapshot conjunct (snapshot version on the chain or its base) preserved by every operation, walk lemma L.snap_base",
         legs=[EXPLORE, SQLCONF, HTTP, INTERLEAVE, FAULTS, XCHECK])
